@@ -53,6 +53,18 @@ def run(ctx) -> None:
                 vv = edu.resolve_local(v, edu.node_of_expr(c))
                 if isinstance(vv, ast.Call) and call_name(vv).endswith("TabulatorAll") and const_of(kwarg(vv, "mode"), "grid") == "path":
                     tab_ok = True
+        # the caller's band selection keeps its order: nothing that sorts / de-duplicates may lie between the parameter and the tabulator
+        for v in (cal.values if isinstance(cal, ast.Dict) else []):
+            vv = edu.resolve_local(v, edu.node_of_expr(c))
+            ib = kwarg(vv, "ibands") if isinstance(vv, ast.Call) else None
+            if ib is None:
+                continue
+            sl_, ps_, _ = edu.backward_slice(ib, edu.node_of_expr(c))
+            reord = [q_ for e_ in sl_ for q_ in ast.walk(e_) if isinstance(q_, ast.Call) and (call_name(q_) in ("np.unique", "sorted", "np.sort", "set", "frozenset", "numpy.unique", "numpy.sort")
+                                                                                           or (isinstance(q_.func, ast.Attribute) and q_.func.attr == "sort"))]
+            r1.check(not reord, "the requested band selection reaches the tabulator in the caller's order", ek, reord[0] if reord else c,
+                     f"`{norm1(reord[0], 80) if reord else ''}` re-orders / de-duplicates the caller's `ibands` before it is handed to the tabulator: the band axis of every "
+                     f"tabulated quantity comes back in ascending order instead of the requested one, so the values along the path are not the values of the requested bands")
         r1.check(okg and tab_ok, "evaluate_k_path evaluates the path through run(grid=path) with a path-mode TabulatorAll", ek, c,
                  f"`{norm1(c, 100)}`: evaluate_k_path no longer goes through run(grid=path) with a TabulatorAll in mode='path' (no re-ordering of the "
                  f"asynchronously gathered batches is applied)")
@@ -348,6 +360,31 @@ def run(ctx) -> None:
                         okseg = m_ is not None and m_["S0"] in sforms and m_["E0"] in eforms
                     r4.check(okseg, f"[{desc}] segment sampling: start + t (end − start), t uniform in [0, 1)", fn, stk[0][0] if stk else anchor,
                              "a segment is no longer sampled as start + linspace(0, 1, _nk − 1, endpoint=False)·(end − start) and stacked once below K_list")
+    # a segment whose length rounds to zero steps still contributes its start node: the count computed from dk is raised to 2 whenever it is 1
+    FNS_ = Sem(idx, fn)
+    for st_nk in [x for x in stmts(fn.node) if isinstance(x, ast.Assign) and isinstance(x.targets[0], ast.Name) and isinstance(x.value, ast.BinOp)
+                  and any(isinstance(c_, ast.Call) and call_name(c_) == "round" for c_ in ast.walk(x.value))]:
+        nkv = st_nk.targets[0].id
+        blk_ = next((b_ for n_ in ast.walk(fn.node) for b_ in (getattr(n_, "body", None), getattr(n_, "orelse", None)) if isinstance(b_, list) and st_nk in b_), None)
+        if blk_ is None:
+            continue
+        after_ = blk_[blk_.index(st_nk) + 1:]
+        okmin = any(isinstance(c_, ast.Call) and call_name(c_) == "max" and any(norm(a_) == "2" for a_ in c_.args) for c_ in ast.walk(st_nk.value))
+        for g_ in after_:
+            if isinstance(g_, ast.If) and not g_.orelse and len(g_.body) == 1 and isinstance(g_.body[0], ast.Assign) and norm(g_.body[0].targets[0]) == nkv \
+                    and norm(g_.body[0].value) == "2":
+                t_ = norm(g_.test).replace(" ", "")
+                okmin = t_ in (f"{nkv}==1", f"{nkv}<2", f"{nkv}<=1", f"1=={nkv}")
+                if not okmin:
+                    r4.violation(fn, g_, f"`if {norm1(g_.test)}: {nkv} = 2` raises the number of points of a short segment only under an extra condition: a segment for which it "
+                                 f"does not hold (e.g. a repeated node, length 0) contributes no point at all, so its start node and label are lost")
+                    okmin = True
+                break
+            if isinstance(g_, ast.Assign) and norm(g_.targets[0]) == nkv and isinstance(g_.value, ast.Call) and call_name(g_.value) == "max":
+                okmin = any(norm(a_) == "2" for a_ in g_.value.args)
+                break
+        r4.check(okmin, "every segment sampled from dk gets at least its start point (count ≥ 2)", fn, st_nk,
+                 f"`{norm1(st_nk)}`: nothing raises the count to 2 when the segment is shorter than dk/2: the start node of such a segment is dropped")
     if not (len(nlab_names) == 1 and len(brk_names) == 1):
         r4.expect(False, "label dictionary and break list identified", fn, lp4, f"from_nodes: label dict {nlab_names} / break list {brk_names} not identified uniquely")
         return
